@@ -50,7 +50,7 @@ ElemInit ==
             cs = Case("axpbypcz", "builtin", K, <<2, 0>>, b, c, n, 0, 0, 0, FALSE, 1, po)
     \/ \E op \in {"copy", "clear"}, K \in Kinds, n \in 0..NMax, po \in BOOLEAN :
             cs = Case(op, "builtin", K, SOne, SOne, SOne, n, 0, 0, 0, FALSE, 1, po)
-    \/ \E impl \in {"serial", "parallel", "eigen"}, K \in Kinds, n \in 0..(NMax + 2), bs \in {1, 2, 4} :
+    \/ \E impl \in {"serial", "parallel", "eigen"}, K \in Kinds, n \in 0..(NMax + 4), bs \in 1..7 :      \* bs = number of threads
             cs = Case("inner", impl, K, SOne, SOne, SOne, n, 0, 0, 0, FALSE, bs, FALSE)
     \* lin_comb with n = 1..5 vectors (field n), vectors of length 2; alpha in b
     \/ \E K \in {KInt, KGauss, KBlk} : \E a \in Coefs(K), b \in Coefs(K), n \in 1..5, po \in BOOLEAN :
